@@ -28,7 +28,7 @@ impl Check for C09 {
         "fault_enumeration"
     }
     fn rule(&self) -> String {
-        "one run = one C04-style scenario (files 0 B .. 600 KiB, i.e. several 256 KiB transfer chunks and larger than the pipe, all three directions, flags incl. --delete/--exclude/--jobs) x kill points: an uninterrupted reference run counts N = file-system-mutating calls + pipe writes of the copia process; for every k in 1..=N (all k when N <= max_points, else max_points seeded k; 60 quick / 300 thorough) the world is restored, copia is killed immediately before its k-th such call, every orphaned child (remote `cat > tmp && mv`, `xargs`, `find`) is scheduled to completion, the destination is inspected, and the same command is run again. Non-trivial = N >= 6 and at least one transfer; distinct = hash of (reference trace shape, N)".into()
+        "one run = one C04-style scenario (files 0 B .. 600 KiB, i.e. several 256 KiB transfer chunks and larger than the pipe, all three directions, flags incl. --delete/--exclude/--jobs) x kill points: an uninterrupted reference run counts N = file-system-mutating calls + pipe writes of the copia process; for every k in 1..=N (all k when N <= max_points, else max_points seeded k; 60 quick / 300 thorough) the world is restored, copia is killed immediately before its k-th such call, every orphaned child (remote `cat > tmp && mv`, `xargs`, `find`) is scheduled to completion, the destination is inspected, and the same command is run again; at every third kill point also after planned source files were rewritten in place with other bytes of the same size (the re-run must deliver its own plan, nothing left in staging may leak in). Non-trivial = N >= 6 and at least one transfer; distinct = hash of (reference trace shape, N)".into()
     }
     fn assumptions(&self) -> Vec<String> {
         let mut a = super::c04::C04.assumptions();
@@ -144,6 +144,54 @@ impl Check for C09 {
                 rep.fail("c09.outside_plan_untouched", "file-outside-plan-changed-by-interrupted-run", format!("{dir_name}: kill {k}/{n}: {p:?}"));
                 return rep;
             }
+            // variant (every third kill point): the source is edited between the crash and the
+            // re-run — planned files rewritten in place with other bytes of the SAME size, mtime kept
+            // or moved on. The re-run must then deliver exactly its own plan (the C04 clause applied to
+            // the state it starts from): whatever the interrupted run left in staging must not leak in.
+            if (sc.seed ^ u64::from(k)) % 3 == 0 {
+                let mut w2 = out.world.clone();
+                let mut r = Rng::new(sc.seed ^ 0xED17 ^ u64::from(k));
+                let mut edited = 0;
+                for p in &plan.transfer {
+                    let Some((b, m)) = src0.get(p) else { continue };
+                    if b.is_empty() || r.below(3) == 0 {
+                        continue;
+                    }
+                    let nb: Vec<u8> = b.iter().map(|x| x ^ 0x5A).collect();
+                    let nm = if r.coin() { *m } else { m + 2_000_000_000 };
+                    w2.host(sh).put_file(&format!("{SRC_ROOT}/{p}"), &nb, nm);
+                    edited += 1;
+                }
+                if edited > 0 {
+                    let src1 = snap(&w2, sh, SRC_ROOT);
+                    let plan1 = ref_plan(&src1, &d1, &sc.excludes, sc.delete);
+                    let again = run_sync(w2, sc, run_cfg(sc, 0xE5 ^ u64::from(k)), false);
+                    rep.execs += 1;
+                    rep.steps += again.stats.steps;
+                    rep.probe("rerun_after_source_edit", 1);
+                    if again.procs[0].exit == ExitKind::Code(0) {
+                        let d2 = snap(&again.world, dh, DST_ROOT);
+                        for (p, (sb, _)) in &src1 {
+                            let got = d2.get(p).map(|x| &x.0);
+                            let ok = if plan1.transfer.contains(p) {
+                                got == Some(sb)
+                            } else if plan1.skipped.contains(p) {
+                                got == d1.get(p).map(|x| &x.0)
+                            } else {
+                                true
+                            };
+                            if !ok {
+                                rep.fail("c09.rerun", "rerun-after-source-edit-delivers-stale-bytes", format!(
+                                    "{dir_name}: kill {k}/{n}, then {p:?} rewritten in the source (same size): after the re-run (exit 0) the destination holds {:?} bytes that are {} the source's",
+                                    got.map(Vec::len), if got == Some(sb) { "equal to" } else { "NOT" }));
+                                return rep;
+                            }
+                        }
+                    } else {
+                        rep.probe("rerun_after_source_edit_failed", 1);
+                    }
+                }
+            }
             // same command again: completes and matches the uninterrupted result
             let again = run_sync(out.world, sc, run_cfg(sc, 0xA6 ^ u64::from(k)), false);
             rep.execs += 1;
@@ -186,6 +234,6 @@ impl Check for C09 {
         out
     }
     fn expected_probes(&self) -> Vec<&'static str> {
-        vec!["scenario_local", "scenario_push", "scenario_pull", "kill_points_checked", "children_ran_to_completion", "file_delivered_before_kill"]
+        vec!["scenario_local", "scenario_push", "scenario_pull", "kill_points_checked", "children_ran_to_completion", "file_delivered_before_kill", "rerun_after_source_edit"]
     }
 }
